@@ -617,6 +617,21 @@ def finding_signature(lines, sd):
             if isinstance(v, Stream) and v.d.get(b"Type") not in (Name(b"ObjStm"), Name(b"XRef")):
                 if b"endstream\n" in split_lines(v.data + b"\n"):
                     return "C17:endstream-line-in-stream-data"
+    # an ordinary stream (indirect /Length) whose dictionary says /Type /ObjStm: an original object stream kept by
+    # --preserve-unreferenced
+    cur = None
+    for l in lines:
+        if HDR.match(l):
+            cur = set()
+        elif cur is not None:
+            if l == b"  /Type /ObjStm\n":
+                cur.add("t")
+            elif re.match(rb"  /Length \d+ 0 R\n\Z", l):
+                cur.add("l")
+            elif l in (b"stream\n", b"endobj\n"):
+                if cur == {"t", "l"}:
+                    return "C17:preserved-objstm-as-plain-stream"
+                cur = None
     for l in lines:
         if (b"/Type /ObjStm" in l and l != b"  /Type /ObjStm\n") or (b"/Type /XRef" in l and l != b"  /Type /XRef\n"):
             return "C17:type-marker-text"
